@@ -472,11 +472,16 @@ func ruleReadFull(p *Prog, r *RuleResult) {
 			}
 			continue
 		}
-		if !isZeroConst(bo.Y) {
+		// constant on the right, whichever way the comparison is written
+		cx, cy, cop := bo.X, bo.Y, bo.Op
+		if isZeroConst(cx) && !isZeroConst(cy) {
+			cx, cy, cop = cy, cx, mirrorOp(cop)
+		}
+		if !isZeroConst(cy) {
 			continue
 		}
-		if fam[bo.X] {
-			switch bo.Op {
+		if fam[cx] {
+			switch cop {
 			case token.GTR, token.NEQ:
 				cut[edge{b, succFor(pos, false)}] = true
 				nfull++
@@ -486,7 +491,7 @@ func ruleReadFull(p *Prog, r *RuleResult) {
 			}
 			continue
 		}
-		if fv := fieldVarOfLoad(bo.X); fv != nil && fv == availF && bo.Op == token.EQL && instrDominates(pbCall, ifi) {
+		if fv := fieldVarOfLoad(cx); fv != nil && fv == availF && cop == token.EQL && instrDominates(pbCall, ifi) {
 			cut[edge{b, succFor(pos, true)}] = true
 			neos++
 		}
